@@ -6,6 +6,7 @@ import PMC.Model.Graph
 import PMC.Model.Syntax
 import PMC.Model.Kripke
 import PMC.Model.CTL
+import PMC.Model.CTLMemo
 import PMC.Model.LTL
 import PMC.Model.CTLS
 import PMC.Model.BDD
@@ -572,6 +573,12 @@ def step (line : String) : String :=
   | ["CTL", g, l, f] =>
       (match decFm f with
        | some f => encExcept encSet (CTL.modelcheck (decKripke g l) f)
+       | none => "bad-formula")
+  | ["CTLM", g, l, f] =>
+      -- the CTL checker WITH its memo table keyed by printed formula (PMC/Model/CTLMemo.lean); equals `CTL` on
+      -- identifier-style atoms (theorem ctl_exact_memo), follows the code on names that collide with printed formulas
+      (match decFm f with
+       | some f => if f.isCTLState then "OK " ++ encSet (CTL.modelcheckM (decKripke g l) f) else "ERR TypeError"
        | none => "bad-formula")
   | ["LTL", g, l, f] =>
       (match decFm f with
